@@ -337,6 +337,15 @@ func parsePossibilityOperator(input *input, version *VersionRelation) error {
 
 	switch operator {
 	case ">=", "<=", "<<", ">>":
+		/* ... unless a third operator character follows: ">==", "<<<" and
+		 * "<=>" are not operators either. */
+		switch input.Peek() {
+		case '=', '<', '>':
+			return fmt.Errorf(
+				"Unknown Operator in Possibility Version modifier: %s%c",
+				operator, input.Peek(),
+			)
+		}
 		version.Operator = operator
 		return nil
 	}
